@@ -6,10 +6,12 @@
    characters, the document is well-formed and parses to exactly the tree of the
    value (c19_document_roundtrip); outside that class the document is not
    well-formed (known findings, witnesses below). The check compares the
-   binary's XML output byte for byte with the model's rendering.
+   binary's XML output with the model's rendering, up to the order of the members
+   of maps (xml_conforms); that test accepts the model's own rendering of every
+   value (c19_conformance_accepts_the_writer).
    JSON, BSON and debug outputs, exit status and error messages are observed on
    the real binary (not modelled). *)
-From GD Require Import Base.Prelude Model.Strings Model.View Model.Cli Proofs.CliProofs.
+From GD Require Import Base.Prelude Model.Strings Model.View Model.Cli Proofs.CliProofs Proofs.CliConforms.
 
 Theorem c19_text_roundtrip_partial : forall s rest acc f, texts_ok s = true ->
   take_text (S (length s + f)) (xml_escape s ++ 60 :: rest) acc = Some (rev acc ++ s, 60 :: rest).
@@ -59,3 +61,16 @@ Example c19_ex : c19_full_statement
          ("players"%string, JList [JObj [("name"%string, JStr (str "x")); ("score"%string, JNum (-3))]; JObj [("name"%string, JStr []); ("score"%string, JNull)]]);
          ("has_password"%string, JBool true)]).
 Proof. vm_compute. reflexivity. Qed.
+
+(* the conformance test applied to the tool's XML output ("this is the writer's rendering of the value,
+   for some order of the members of its maps") accepts the writer model's own rendering of every value
+   whose non-integer numbers are number text: a document it rejects is not that rendering *)
+Theorem c19_conformance_accepts_the_writer : forall l, raw_number (JObj l) = None -> raw_ok (JObj l) = true ->
+  xml_conforms (xml_document (JObj l)) (JObj l) = true.
+Proof. exact conforms_own_rendering. Qed.
+Print Assumptions c19_conformance_accepts_the_writer.
+(* ... for every key and whatever follows the element *)
+Theorem c19_match_complete : forall v k rest, raw_ok v = true ->
+  In rest (xml_match (msize v) (Some k) v (json_to_xml (Some k) v ++ rest)).
+Proof. exact match_complete. Qed.
+Print Assumptions c19_match_complete.
